@@ -4,6 +4,11 @@ CONSTANTS
   Slots = {0, 31, 32, 100}
   GivenEpochs = {0, 3}
   MaxBatch = 3
+  NReq = 1
+  ForkEpochs = {1}
   LawBatch = 5
-INVARIANTS TypeOK DomainRight SigCorrect NoSignatureWithoutDomain ErrorHasNoSignatures
+  HistOps = {}
+  HistKinds = {}
+  HistFails = {}
+INVARIANTS TypeOK DomainRight Memoryless SigCorrect NoSignatureWithoutDomain ErrorHasNoSignatures
 CHECK_DEADLOCK FALSE
